@@ -346,3 +346,89 @@ Definition compare_events_gen ({f2.args[0]} {f2.args[1]} : ep) : option Z :=
 '''
     write_if_changed(os.path.join(GEN, "Cmp_gen.v"), text)
     return "gen/Cmp_gen.v"
+
+
+# ---- save / restore field lists of the critical-path graph -> coq/gen/SaveFields_gen.v ----
+def _self_attr_reads(fn: ast.FunctionDef, selfname: str = "self") -> List[str]:
+    out = []
+    for node in ast.walk(fn):
+        if isinstance(node, ast.Attribute) and isinstance(node.value, ast.Name) and node.value.id == selfname and isinstance(node.ctx, ast.Load):
+            if node.attr not in out:
+                out.append(node.attr)
+    return out
+
+
+def gen_savefields() -> str:
+    path = "hta/analyzers/critical_path_analysis.py"
+    tree = ast.parse(open(os.path.join(fw.REPO, path)).read())
+    classes = {n.name: n for n in tree.body if isinstance(n, ast.ClassDef)}
+    funcs = {n.name: n for n in tree.body if isinstance(n, ast.FunctionDef)}
+    if "_CPGraphData" not in classes or "CPGraph" not in classes or "restore_cpgraph" not in funcs:
+        raise Stop("critical_path_analysis.py: _CPGraphData / CPGraph / restore_cpgraph not found")
+    data_fields = [st.target.id for st in classes["_CPGraphData"].body if isinstance(st, ast.AnnAssign) and isinstance(st.target, ast.Name)]
+    methods = {n.name: n for n in classes["CPGraph"].body if isinstance(n, ast.FunctionDef)}
+    # keyword arguments of the _CPGraphData(...) call in save(): field = self.<attr>
+    saved = []
+    for node in ast.walk(methods["save"]):
+        if isinstance(node, ast.Call) and isinstance(node.func, ast.Name) and node.func.id == "_CPGraphData":
+            if node.args:
+                raise Stop("save(): positional arguments to _CPGraphData")
+            for kw in node.keywords:
+                if not (isinstance(kw.value, ast.Attribute) and isinstance(kw.value.value, ast.Name) and kw.value.value.id == "self" and kw.value.attr == kw.arg):
+                    raise Stop(f"save(): field {kw.arg} is not saved from self.{kw.arg}")
+                saved.append(kw.arg)
+    # restored_instance.<attr> = pickled_obj.<attr>
+    restored, other_restored = [], []
+    for st in ast.walk(funcs["restore_cpgraph"]):
+        if isinstance(st, ast.Assign) and len(st.targets) == 1 and isinstance(st.targets[0], ast.Attribute) and isinstance(st.targets[0].value, ast.Name) \
+                and st.targets[0].value.id == "restored_instance":
+            tgt = st.targets[0].attr
+            v = st.value
+            if isinstance(v, ast.Attribute) and isinstance(v.value, ast.Name) and v.value.id == "pickled_obj":
+                if v.attr != tgt:
+                    raise Stop(f"restore_cpgraph: {tgt} restored from field {v.attr}")
+                restored.append(tgt)
+            else:
+                other_restored.append(tgt)
+    # attributes __init__ sets before the early return taken on restore (t is None)
+    init_attrs = []
+    for st in methods["__init__"].body:
+        if isinstance(st, ast.If) and ast.unparse(st.test) == "t is None":
+            break
+        for node in ast.walk(st):
+            if isinstance(node, (ast.Assign, ast.AnnAssign)):
+                tg = node.targets[0] if isinstance(node, ast.Assign) else node.target
+                if isinstance(tg, ast.Attribute) and isinstance(tg.value, ast.Name) and tg.value.id == "self":
+                    init_attrs.append(tg.attr)
+    observers = ["critical_path", "get_critical_path_breakdown", "summary", "get_event_attribution_for_edge", "get_nodes_for_event", "get_events_for_edge",
+                 "_validate_graph", "_get_node_name", "get_edges_attributed_to_event", "_event_to_attributed_edges_map"]
+    method_names = set(methods)
+    nx_api = {"edges", "nodes", "add_node", "add_edge", "neighbors"}
+    reads = {}
+    for o in observers:
+        if o not in methods:
+            raise Stop(f"CPGraph.{o} not found")
+        reads[o] = [a for a in _self_attr_reads(methods[o]) if a not in method_names and a not in nx_api]
+
+    def sl(xs):
+        return "[" + "; ".join('"' + x + '"' for x in xs) + "]"
+    text = f'''(* GENERATED by harness/translate.py from hta/analyzers/critical_path_analysis.py -- do not edit.
+   Field lists of the save / restore code of the critical-path graph. *)
+From HTA.lib Require Import Base.
+
+(* fields of the _CPGraphData dataclass *)
+Definition data_fields : list string := {sl(data_fields)}.
+(* keyword arguments of _CPGraphData(...) in CPGraph.save (each saved from the attribute of the same name) *)
+Definition saved_fields : list string := {sl(saved)}.
+(* attributes restore_cpgraph copies back from the pickled object (each from the field of the same name) *)
+Definition restored_fields : list string := {sl(restored)}.
+(* attributes restore_cpgraph sets from other sources (the trace csv) *)
+Definition restored_other : list string := {sl(other_restored)}.
+(* attributes CPGraph.__init__ sets before the early return taken when restoring *)
+Definition init_fields : list string := {sl(init_attrs)}.
+(* instance attributes read by the observers (methods and networkx API excluded) *)
+Definition observer_reads : list (string * list string) :=
+  [{"; ".join('("' + o + '", ' + sl(reads[o]) + ")" for o in observers)}].
+'''
+    write_if_changed(os.path.join(GEN, "SaveFields_gen.v"), text)
+    return "gen/SaveFields_gen.v"
